@@ -18,9 +18,6 @@ def flat (w : Word) : Str := w.flatMap Grapheme.value
 theorem flat_append (a b : Word) : flat (a ++ b) = flat a ++ flat b := by simp [flat]
 theorem flat_nil : flat [] = [] := rfl
 
-/-- the string-level language of an expression -/
-def Expr.strLang (e : Expr) (s : Str) : Prop := ∃ w, e.lang w ∧ s = flat w
-
 /-! ### classes -/
 
 /-- the members `format_character_class` writes for one maximal run -/
@@ -167,6 +164,121 @@ theorem classItems_match (cs : List Nat) (hne : cs ≠ []) (hs : ∀ c ∈ cs, S
     have := (runItems_match r (h3 hne r hr) (h2 r hr) (fun c hc => hs c (hmem r hr c hc)) x hx).mpr hxr
     simpa [List.any_eq_true] using this
 
+theorem value_ofStr (s : Str) : (Grapheme.ofStr s).value = s := by
+  show [s].flatten = s
+  simp
+
+/-! ### atoms: what one position of a grapheme's text stands for -/
+
+/-- a code point, or a shorthand class written by `convert_to_char_classes` -/
+inductive Atom where
+  | chr (c : Nat)
+  | cls (k : ClassKind) (neg : Bool)
+deriving DecidableEq, Repr
+
+def classLetter (L : Nat) : Option (ClassKind × Bool) :=
+  if L = 100 then some (.digit, false) else if L = 68 then some (.digit, true)
+  else if L = 115 then some (.space, false) else if L = 83 then some (.space, true)
+  else if L = 119 then some (.word, false) else if L = 87 then some (.word, true) else none
+
+def letterOf : ClassKind → Bool → Nat
+  | .digit, false => 100 | .digit, true => 68
+  | .space, false => 115 | .space, true => 83
+  | .word, false => 119 | .word, true => 87
+
+theorem classLetter_letterOf (k : ClassKind) (n : Bool) : classLetter (letterOf k n) = some (k, n) := by
+  cases k <;> cases n <;> rfl
+
+/-- reading a grapheme's text: a backslash followed by a class letter is a class, everything else a code point
+(`pending`: the previous character was a backslash that has not been emitted yet) -/
+def tokensAux : Bool → Str → List Atom
+  | false, [] => []
+  | true, [] => [Atom.chr 92]
+  | false, c :: r => if c = 92 then tokensAux true r else Atom.chr c :: tokensAux false r
+  | true, c :: r =>
+    match classLetter c with
+    | some (k, n) => Atom.cls k n :: tokensAux false r
+    | none => Atom.chr 92 :: (if c = 92 then tokensAux true r else Atom.chr c :: tokensAux false r)
+
+def tokens (s : Str) : List Atom := tokensAux false s
+
+def untok : List Atom → Str
+  | [] => []
+  | .chr c :: r => c :: untok r
+  | .cls k n :: r => 92 :: letterOf k n :: untok r
+
+def AtomOK : Atom → Prop
+  | .chr c => c ≠ 92 ∧ Scalar c
+  | .cls _ _ => True
+
+/-- the atoms of one grapheme: a lone backslash, or code points other than the backslash and classes -/
+def AtomsOK (as : List Atom) : Prop := as = [Atom.chr 92] ∨ ∀ a ∈ as, AtomOK a
+
+theorem tokensAux_untok_ok : ∀ (as : List Atom), (∀ a ∈ as, AtomOK a) → tokensAux false (untok as) = as
+  | [], _ => rfl
+  | .chr c :: r, h => by
+    have hc : c ≠ 92 := (h _ List.mem_cons_self).1
+    simp only [untok, tokensAux, hc, ite_false]
+    rw [tokensAux_untok_ok r (fun a ha => h a (List.mem_cons_of_mem _ ha))]
+  | .cls k n :: r, h => by
+    simp only [untok, tokensAux, ite_true, classLetter_letterOf]
+    rw [tokensAux_untok_ok r (fun a ha => h a (List.mem_cons_of_mem _ ha))]
+
+theorem tokens_untok (as : List Atom) (h : AtomsOK as) : tokens (untok as) = as := by
+  rcases h with rfl | h
+  · simp [tokens, untok, tokensAux]
+  · exact tokensAux_untok_ok as h
+
+theorem tokens_single (c : Nat) : tokens [c] = [Atom.chr c] := by
+  by_cases h : c = 92
+  · subst h; simp [tokens, tokensAux]
+  · simp [tokens, tokensAux, h]
+
+theorem untok_ne_nil (as : List Atom) (h : as ≠ []) : untok as ≠ [] := by
+  cases as with
+  | nil => exact absurd rfl h
+  | cons a r => cases a <;> simp [untok]
+
+def atomPat : Atom → Pat
+  | .chr c => Pat.chr c
+  | .cls k n => Pat.perl k n
+
+def atomDen : Atom → Nat → Prop
+  | .chr c, x => x = c
+  | .cls k n, x => (perlMember k x != n) = true
+
+/-- a string matches a sequence of atoms position by position -/
+def atomsDen : List Atom → Str → Prop
+  | [], s => s = []
+  | a :: as, s => ∃ x r, s = x :: r ∧ atomDen a x ∧ atomsDen as r
+
+theorem atomsDen_append (a b : List Atom) (s : Str) :
+    atomsDen (a ++ b) s ↔ ∃ u v, s = u ++ v ∧ atomsDen a u ∧ atomsDen b v := by
+  induction a generalizing s with
+  | nil =>
+    simp only [List.nil_append, atomsDen]
+    constructor
+    · intro h; exact ⟨[], s, rfl, rfl, h⟩
+    · rintro ⟨u, v, rfl, rfl, h⟩; simpa using h
+  | cons x xs ih =>
+    simp only [List.cons_append, atomsDen]
+    constructor
+    · rintro ⟨c, r, rfl, hc, hr⟩
+      obtain ⟨u, v, rfl, hu, hv⟩ := (ih r).mp hr
+      exact ⟨c :: u, v, rfl, ⟨c, u, rfl, hc, hu⟩, hv⟩
+    · rintro ⟨u, v, rfl, ⟨c, r, rfl, hc, hr⟩, hv⟩
+      exact ⟨c, r ++ v, rfl, hc, (ih _).mpr ⟨r, v, rfl, hr, hv⟩⟩
+
+/-- the atoms of a word -/
+def atomsOf (w : Word) : List Atom := w.flatMap fun g => tokens g.value
+
+theorem atomsOf_append (a b : Word) : atomsOf (a ++ b) = atomsOf a ++ atomsOf b := by simp [atomsOf]
+theorem atomsOf_nil : atomsOf [] = [] := rfl
+
+/-- the string-level language of an expression: the symbol-level words with every grapheme read atom by atom -/
+def Expr.strLang (e : Expr) (s : Str) : Prop := ∃ w, e.lang w ∧ atomsDen (atomsOf w) s
+
+
 /-! ### the printed pattern of an expression -/
 
 /-- the settings under which the printed text is the plain regex: no colours, not verbose, no `\u{..}` escapes -/
@@ -183,7 +295,7 @@ def optOf : List Pat → List Pat
 mutual
 /-- (the items the text of `e` contributes to the enclosing concatenation, the body of a group around `e`) -/
 def Expr.both (cap : Bool) : Expr → List Pat × Pat
-  | .lit c => let its := (flat c).map Pat.chr; (its, catList its)
+  | .lit c => let its := (atomsOf c).map atomPat; (its, catList its)
   | .cls cs => let its := [Pat.set (classItems cs) false]; (its, catList its)
   | .cat a b =>
     let ra := Expr.both cap a
@@ -208,11 +320,9 @@ def Expr.isRep : Expr → Bool
   | .rep _ _ => true
   | _ => false
 
-/-- a backslash is a grapheme of its own (what `GraphemeCluster::from` guarantees) -/
-def BsOK (s : Str) : Prop := s = [92] ∨ 92 ∉ s
-
-/-- every grapheme of the cluster is `Grapheme::from(s)` for a non-empty `s` of scalar values in which a backslash only occurs alone -/
-def PlainBs (c : Cluster) : Prop := ∀ g ∈ c, ∃ s, s ≠ [] ∧ BsOK s ∧ (∀ x ∈ s, Scalar x) ∧ g = Grapheme.ofStr s
+/-- every grapheme of the cluster is `Grapheme::from(s)` where `s` spells a non-empty sequence of atoms: scalar values
+(a backslash only as a grapheme of its own — what `GraphemeCluster::from` guarantees) and shorthand-class tokens -/
+def PlainBs (c : Cluster) : Prop := ∀ g ∈ c, ∃ as, as ≠ [] ∧ AtomsOK as ∧ g = Grapheme.ofStr (untok as)
 
 mutual
 /-- shapes the elimination produces: non-empty flat alternations, non-empty ascending scalar classes, plain
@@ -279,60 +389,72 @@ theorem den_altList (ps : List Pat) (hne : ps ≠ []) (s : Str) : (altList ps).d
 
 theorem chrMatches_false (c x : Nat) : chrMatches false c x = true ↔ x = c := by simp [chrMatches]
 
-theorem denL_chars (cs : Str) (s : Str) : denL (cs.map Pat.chr) s ↔ s = cs := by
-  induction cs generalizing s with
-  | nil => simp [denL]
-  | cons c cs ih =>
-    simp only [List.map_cons, denL, Pat.den, chrMatches_false]
+theorem den_atomPat (a : Atom) (u : Str) : (atomPat a).den false u ↔ ∃ x, u = [x] ∧ atomDen a x := by
+  cases a with
+  | chr c => simp [atomPat, Pat.den, atomDen, chrMatches_false]
+  | cls k n => simp [atomPat, Pat.den, atomDen]
+
+theorem denL_atoms (as : List Atom) (s : Str) : denL (as.map atomPat) s ↔ atomsDen as s := by
+  induction as generalizing s with
+  | nil => simp [denL, atomsDen]
+  | cons a as ih =>
+    simp only [List.map_cons, denL, atomsDen, den_atomPat]
     constructor
-    · rintro ⟨u, v, rfl, ⟨x, rfl, rfl⟩, h⟩
-      rw [(ih v).mp h]; rfl
-    · rintro rfl
-      exact ⟨[c], cs, rfl, ⟨c, rfl, rfl⟩, (ih cs).mpr rfl⟩
+    · rintro ⟨u, v, rfl, ⟨x, rfl, hx⟩, h⟩
+      exact ⟨x, v, rfl, hx, (ih v).mp h⟩
+    · rintro ⟨x, r, rfl, hx, h⟩
+      exact ⟨[x], r, rfl, ⟨x, rfl, hx⟩, (ih r).mpr h⟩
 
 /-! ### string language, constructor by constructor -/
 
-theorem value_ofStr (s : Str) : (Grapheme.ofStr s).value = s := by
-  show [s].flatten = s
-  simp
-
 namespace Expr
 
-theorem strLang_lit (c : Cluster) (s : Str) : (Expr.lit c).strLang s ↔ s = flat c := by
+theorem strLang_lit (c : Cluster) (s : Str) : (Expr.lit c).strLang s ↔ atomsDen (atomsOf c) s := by
   simp only [strLang, lang]
   constructor
-  · rintro ⟨w, rfl, rfl⟩; rfl
-  · rintro rfl; exact ⟨c, rfl, rfl⟩
+  · rintro ⟨w, rfl, h⟩; exact h
+  · intro h; exact ⟨c, rfl, h⟩
+
+theorem atomsDen_single (c : Nat) (s : Str) : atomsDen [Atom.chr c] s ↔ s = [c] := by
+  simp only [atomsDen, atomDen]
+  constructor
+  · rintro ⟨x, r, rfl, rfl, rfl⟩; rfl
+  · rintro rfl; exact ⟨c, [], rfl, rfl, rfl⟩
 
 theorem strLang_cls (cs : List Nat) (s : Str) : (Expr.cls cs).strLang s ↔ ∃ c ∈ cs, s = [c] := by
   simp only [strLang, lang]
   constructor
-  · rintro ⟨w, ⟨c, hc, rfl⟩, rfl⟩; exact ⟨c, hc, by simp [flat, value_ofStr]⟩
-  · rintro ⟨c, hc, rfl⟩; exact ⟨_, ⟨c, hc, rfl⟩, by simp [flat, value_ofStr]⟩
+  · rintro ⟨w, ⟨c, hc, rfl⟩, h⟩
+    refine ⟨c, hc, ?_⟩
+    simpa [atomsOf, value_ofStr, tokens_single, atomsDen_single] using h
+  · rintro ⟨c, hc, rfl⟩
+    exact ⟨_, ⟨c, hc, rfl⟩, by simp [atomsOf, value_ofStr, tokens_single, atomsDen_single]⟩
 
 theorem strLang_cat (a b : Expr) (s : Str) : (Expr.cat a b).strLang s ↔ ∃ u v, s = u ++ v ∧ a.strLang u ∧ b.strLang v := by
   simp only [strLang, lang]
   constructor
-  · rintro ⟨w, ⟨u, v, rfl, h1, h2⟩, rfl⟩
-    exact ⟨flat u, flat v, flat_append u v, ⟨u, h1, rfl⟩, ⟨v, h2, rfl⟩⟩
-  · rintro ⟨_, _, rfl, ⟨u, h1, rfl⟩, ⟨v, h2, rfl⟩⟩
-    exact ⟨u ++ v, ⟨u, v, rfl, h1, h2⟩, (flat_append u v).symm⟩
+  · rintro ⟨w, ⟨u, v, rfl, h1, h2⟩, h⟩
+    rw [atomsOf_append, atomsDen_append] at h
+    obtain ⟨s1, s2, rfl, d1, d2⟩ := h
+    exact ⟨s1, s2, rfl, ⟨u, h1, d1⟩, ⟨v, h2, d2⟩⟩
+  · rintro ⟨s1, s2, rfl, ⟨u, h1, d1⟩, ⟨v, h2, d2⟩⟩
+    exact ⟨u ++ v, ⟨u, v, rfl, h1, h2⟩, by rw [atomsOf_append, atomsDen_append]; exact ⟨s1, s2, rfl, d1, d2⟩⟩
 
 theorem strLang_opt (e : Expr) (s : Str) : (Expr.rep e .question).strLang s ↔ s = [] ∨ e.strLang s := by
   simp only [strLang, lang]
   constructor
-  · rintro ⟨w, rfl | h, rfl⟩
-    · exact Or.inl rfl
-    · exact Or.inr ⟨w, h, rfl⟩
-  · rintro (rfl | ⟨w, h, rfl⟩)
-    · exact ⟨[], Or.inl rfl, rfl⟩
-    · exact ⟨w, Or.inr h, rfl⟩
+  · rintro ⟨w, rfl | h, d⟩
+    · left; simpa [atomsOf, atomsDen] using d
+    · exact Or.inr ⟨w, h, d⟩
+  · rintro (rfl | ⟨w, h, d⟩)
+    · exact ⟨[], Or.inl rfl, by simp [atomsOf, atomsDen]⟩
+    · exact ⟨w, Or.inr h, d⟩
 
 theorem strLang_alt (os : List Expr) (s : Str) : (Expr.alt os).strLang s ↔ ∃ o ∈ os, o.strLang s := by
   simp only [strLang, lang, langAny_iff]
   constructor
-  · rintro ⟨w, ⟨o, ho, h⟩, rfl⟩; exact ⟨o, ho, w, h, rfl⟩
-  · rintro ⟨o, ho, w, h, rfl⟩; exact ⟨w, ⟨o, ho, h⟩, rfl⟩
+  · rintro ⟨w, ⟨o, ho, h⟩, d⟩; exact ⟨o, ho, w, h, d⟩
+  · rintro ⟨o, ho, w, h, d⟩; exact ⟨w, ⟨o, ho, h⟩, d⟩
 
 theorem charCount_flat (c : Cluster) : clusterCharCount c false = (flat c).length := by
   have hg : ∀ g : Grapheme, graphemeCharCount g false = g.value.length := by
@@ -343,6 +465,41 @@ theorem charCount_flat (c : Cluster) : clusterCharCount c false = (flat c).lengt
   exact List.map_congr_left (fun g _ => hg g)
 
 end Expr
+
+theorem untok_length_pos (as : List Atom) (h : as ≠ []) : 1 ≤ (untok as).length := by
+  cases as with
+  | nil => exact absurd rfl h
+  | cons a r => cases a <;> simp [untok]
+
+/-- a literal that counts as a single code point is one grapheme of one code point -/
+theorem single_literal (c : Cluster) (h : PlainBs c) (hlen : (flat c).length = 1) :
+    ∃ x, c = [Grapheme.ofStr [x]] ∧ atomsOf c = [Atom.chr x] ∧ Scalar x := by
+  cases c with
+  | nil => simp [flat] at hlen
+  | cons g gs =>
+    obtain ⟨as, hne, hok, rfl⟩ := h _ List.mem_cons_self
+    have h1 := untok_length_pos as hne
+    simp only [flat, List.flatMap_cons, value_ofStr, List.length_append] at hlen
+    cases gs with
+    | cons g2 gs2 =>
+      obtain ⟨as2, hne2, _, rfl⟩ := h _ (List.mem_cons_of_mem _ List.mem_cons_self)
+      have := untok_length_pos as2 hne2
+      simp only [List.flatMap_cons, value_ofStr, List.length_append] at hlen
+      omega
+    | nil =>
+      simp only [List.flatMap_nil, List.length_nil, Nat.add_zero] at hlen
+      match as, hne, hlen with
+      | [Atom.chr x], _, _ =>
+        refine ⟨x, rfl, by simp [atomsOf, value_ofStr, untok, tokens_single], ?_⟩
+        rcases hok with h92 | hall
+        · simp only [List.cons.injEq, Atom.chr.injEq, and_true] at h92
+          subst h92; unfold Scalar; omega
+        · exact (hall _ List.mem_cons_self).2
+      | Atom.chr x :: a2 :: r, _, hl =>
+        have := untok_length_pos (a2 :: r) (by simp)
+        simp only [untok, List.length_cons] at hl this
+        omega
+      | Atom.cls k n :: r, _, hl => simp [untok] at hl
 
 /-- a single-code-point expression contributes exactly one item, and grouping is transparent -/
 theorem denL_subOf (cap : Bool) (outer : Nat) (e : Expr) (its : List Pat) (bd : Pat) (s : Str)
@@ -370,7 +527,7 @@ mutual
 theorem Expr.both_den (cap : Bool) : ∀ (e : Expr), e.WF → ∀ s, (∀ c ∈ s, Scalar c) →
     (e.isAlt = false → (denL (e.both cap).1 s ↔ e.strLang s)) ∧ ((e.both cap).2.den false s ↔ e.strLang s)
   | .lit c, _, s, _ => by
-    simp [Expr.both, den_catList, denL_chars, Expr.strLang_lit]
+    simp [Expr.both, den_catList, denL_atoms, Expr.strLang_lit]
   | .cls cs, h, s, hs => by
     have key : denL [Pat.set (classItems cs) false] s ↔ (Expr.cls cs).strLang s := by
       rw [Expr.strLang_cls]
@@ -424,8 +581,8 @@ theorem Expr.both_den (cap : Bool) : ∀ (e : Expr), e.WF → ∀ s, (∀ c ∈ 
             | false => simp [Expr.precedence, hh] at hc
           simp only [Expr.isSingleCodepoint, cfgPlain, Bool.and_eq_true, beq_iff_eq] at hsc
           have hlen : (flat c).length = 1 := by rw [← Expr.charCount_flat]; exact hsc.1
-          match hf : flat c, hlen with
-          | [x], _ => exact ⟨Pat.chr x, by simp [Expr.both, hf]⟩
+          obtain ⟨x, _, hat, _⟩ := single_literal c hwf hlen
+          exact ⟨Pat.chr x, by simp [Expr.both, hat, atomPat]⟩
     obtain ⟨p, hp⟩ := hsingle
     have key : denL (optOf (subOf cap 3 e (e.both cap).1 (e.both cap).2)) s ↔ (Expr.rep e .question).strLang s := by
       rw [hp, Expr.strLang_opt]
@@ -503,8 +660,8 @@ theorem frag_optOf (l : List Pat) (h : ∀ p ∈ l, p.Frag) : ∀ p ∈ optOf l,
 mutual
 theorem Expr.both_frag (cap : Bool) : ∀ (e : Expr), (∀ p ∈ (e.both cap).1, p.Frag) ∧ (e.both cap).2.Frag
   | .lit c => by
-    have h : ∀ p ∈ (flat c).map Pat.chr, p.Frag := by
-      intro p hp; obtain ⟨x, _, rfl⟩ := List.mem_map.mp hp; trivial
+    have h : ∀ p ∈ (atomsOf c).map atomPat, p.Frag := by
+      intro p hp; obtain ⟨x, _, rfl⟩ := List.mem_map.mp hp; cases x <;> trivial
     simp only [Expr.both]
     exact ⟨h, frag_catList _ h⟩
   | .cls cs => by
